@@ -6,8 +6,17 @@
 //!   lit <term>                                                how the pretty printer writes one literal (default config)
 //!   iri <hex> <pm>                                            how the pretty printer writes one IRI under a prefix map
 //! <pm> = `d` (TurtleConfig default map) | `-` (empty map) | comma separated `<hexprefix>:<hexns>` pairs
+//! `ttl~` / `trig~`: the same through the other entry points (`serialize_triples/quads` from a streaming fallible
+//! source; prefix map through `with_prefix_map(&[(Prefix<&str>, Iri<&str>)])`, i.e. `PrefixMap::iter/to_vec`)
 //!
-//! replies: n=<#quads> bn=<#blank nodes> out=<hex of the serialisation> [FAIL.<what>=<detail>]
+//! replies: n=<#quads> bn=<#blank nodes> cfg=<ok|rejected> out=<hex of the serialisation> [FAIL.<what>=<detail>]
+//! `cfg=rejected`: `TurtleConfig::with_indentation` refused the indentation (its documented precondition).
+//!
+//! Oracle (what the property demands, nothing more): the document parses with the format's own parser
+//! (`FAIL.parse_error`), the parse is isomorphic to the input (`FAIL.not_isomorphic`), and no statement is stated
+//! twice (`FAIL.duplicate_statement`: "every triple/quad is present exactly once").  What the crate's *other*
+//! parsers (TriG on Turtle, generalized TriG) make of the document is reported as observation `x.<parser>=…`
+//! only: it is not part of C04 (C08 owns the generalized parser).
 //!
 //! The real code runs in a child process (`vh-c04 worker`) so that non-termination, memory exhaustion and
 //! stack overflow of the serializer are observations (`FAIL.no_termination`, `FAIL.crash`), not harness failures.
@@ -50,48 +59,65 @@ pub fn render_pm(pm: &Option<Vec<(String, String)>>) -> String {
     }
 }
 
-fn config(pretty: bool, indent: &str, pm: &Option<Vec<(String, String)>>) -> TurtleConfig {
-    let mut c = TurtleConfig::new().with_pretty(pretty).with_indentation(indent);
+/// `None`: `with_indentation` refused the indentation (it panics: its documented way of rejecting)
+fn config(pretty: bool, indent: &str, pm: &Option<Vec<(String, String)>>, alt: bool) -> Option<TurtleConfig> {
+    let ind = indent.to_string();
+    let mut c = catch(move || TurtleConfig::new().with_pretty(pretty).with_indentation(ind)).ok()?;
     if let Some(v) = pm {
-        let pairs: Vec<PrefixMapPair> = v
-            .iter()
-            .map(|(p, n)| (Prefix::new_unchecked(p.clone().into_boxed_str()), Iri::new_unchecked(n.clone().into_boxed_str())))
-            .collect();
-        c = c.with_own_prefix_map(pairs);
+        if alt {
+            let pairs: Vec<(Prefix<&str>, Iri<&str>)> = v.iter().map(|(p, n)| (Prefix::new_unchecked(p.as_str()), Iri::new_unchecked(n.as_str()))).collect();
+            c = c.with_prefix_map(&pairs[..]);
+        } else {
+            let pairs: Vec<PrefixMapPair> = v
+                .iter()
+                .map(|(p, n)| (Prefix::new_unchecked(p.clone().into_boxed_str()), Iri::new_unchecked(n.clone().into_boxed_str())))
+                .collect();
+            c = c.with_own_prefix_map(pairs);
+        }
     }
-    c
+    Some(c)
 }
 
-fn serialize(trig: bool, cfg: TurtleConfig, quads: &[Q]) -> Result<String, String> {
+fn serialize(trig: bool, alt: bool, cfg: TurtleConfig, quads: &[Q]) -> Result<String, String> {
+    use std::convert::Infallible;
     if trig {
         let ds: Vec<([SimpleTerm<'static>; 3], Option<SimpleTerm<'static>>)> = quads.iter().map(tgen::q_to_simple).collect();
         let mut ser = TrigSerializer::new_stringifier_with_config(cfg);
-        ser.serialize_dataset(&ds).map_err(|e| e.to_string())?;
+        if alt {
+            ser.serialize_quads(ds.into_iter().map(Ok::<_, Infallible>)).map_err(|e| e.to_string())?;
+        } else {
+            ser.serialize_dataset(&ds).map_err(|e| e.to_string())?;
+        }
         Ok(ser.to_string())
     } else {
         let g: Vec<[SimpleTerm<'static>; 3]> = quads.iter().map(|q| tgen::q_to_simple(q).0).collect();
         let mut ser = TurtleSerializer::new_stringifier_with_config(cfg);
-        ser.serialize_graph(&g).map_err(|e| e.to_string())?;
+        if alt {
+            ser.serialize_triples(g.into_iter().map(Ok::<_, Infallible>)).map_err(|e| e.to_string())?;
+        } else {
+            ser.serialize_graph(&g).map_err(|e| e.to_string())?;
+        }
         Ok(ser.to_string())
     }
 }
 
-fn parse_with(parser: &str, txt: &str) -> Result<BTreeSet<Q>, String> {
-    let mut out = BTreeSet::new();
+/// the statements in document order, duplicates included
+fn parse_with(parser: &str, txt: &str) -> Result<Vec<Q>, String> {
+    let mut out = vec![];
     match parser {
         "turtle" => sophia_turtle::parser::turtle::parse_str(txt)
             .for_each_triple(|t| {
-                out.insert(iso::norm_q(&tgen::view_triple(t)));
+                out.push(iso::norm_q(&tgen::view_triple(t)));
             })
             .map_err(|e| e.to_string())?,
         "trig" => sophia_turtle::parser::trig::parse_str(txt)
             .for_each_quad(|q| {
-                out.insert(iso::norm_q(&tgen::view_quad(q)));
+                out.push(iso::norm_q(&tgen::view_quad(q)));
             })
             .map_err(|e| e.to_string())?,
         "gtrig" => sophia_turtle::parser::gtrig::parse_str(txt)
             .for_each_quad(|q| {
-                out.insert(iso::norm_q(&tgen::view_quad(q)));
+                out.push(iso::norm_q(&tgen::view_quad(q)));
             })
             .map_err(|e| e.to_string())?,
         _ => unreachable!(),
@@ -103,29 +129,40 @@ fn qs(v: &[Q]) -> String {
     v.iter().take(6).map(|q| q.render().replace(' ', ",")).collect::<Vec<_>>().join("/")
 }
 
-/// the round-trip oracle on one serialisation
-fn roundtrip(trig: bool, input: &[Q], txt: &str) -> String {
+/// the round-trip oracle on one serialisation.  `pretty`: the input was collected into a set first, so every
+/// statement must be stated once; streaming mode writes one statement per input statement.
+fn roundtrip(trig: bool, pretty: bool, input: &[Q], txt: &str) -> String {
     let expected: BTreeSet<Q> = input.iter().map(iso::norm_q).collect();
     let primary = if trig { "trig" } else { "turtle" };
     let mut out = String::new();
-    let got = match parse_with(primary, txt) {
+    let stated = match parse_with(primary, txt) {
         Err(e) => {
             return format!(" FAIL.parse_error={}", hex(&e));
         }
         Ok(g) => g,
     };
+    let got: BTreeSet<Q> = stated.iter().cloned().collect();
     if !iso::isomorphic(&expected, &got) {
         let (m, x) = iso::erased_diff(&expected, &got);
         out += &format!(" FAIL.not_isomorphic=m{},x{};M:{};X:{}", m.len(), x.len(), qs(&m), qs(&x));
+    } else {
+        // "every triple/quad is present exactly once": more statements in the document than the serializer was given
+        let allowed = if pretty { expected.len() } else { input.len() };
+        if stated.len() > allowed {
+            let mut seen = BTreeSet::new();
+            let dup: Vec<Q> = stated.iter().filter(|q| !seen.insert((*q).clone())).cloned().collect();
+            out += &format!(" FAIL.duplicate_statement={}of{};{}", stated.len() - allowed, stated.len(), qs(&dup));
+        }
     }
-    // the other parsers of the crate must read the same document the same way
+    // observation only (not part of C04): how the other parsers of the crate read the same document
     let others: &[&str] = if trig { &["gtrig"] } else { &["trig", "gtrig"] };
     for p in others {
         match parse_with(p, txt) {
-            Err(e) => out += &format!(" FAIL.parse_error_{}={}", p, hex(&e)),
+            Err(e) => out += &format!(" x.{}=error:{}", p, hex(&e)),
             Ok(g2) => {
+                let g2: BTreeSet<Q> = g2.into_iter().collect();
                 if !iso::isomorphic(&got, &g2) {
-                    out += &format!(" FAIL.parsers_disagree={}", p);
+                    out += &format!(" x.{}=differs", p);
                 }
             }
         }
@@ -146,8 +183,13 @@ fn parse_quads(toks: &[&str]) -> Option<Vec<Q>> {
 pub fn exec_real(line: &str) -> String {
     let f: Vec<&str> = line.split_whitespace().collect();
     match f.as_slice() {
+        ["ping"] => "pong".into(),
         ["ser", fmt, pretty, ind, pm, rest @ ..] => {
-            let trig = match *fmt {
+            let (fmt, alt) = match fmt.strip_suffix('~') {
+                Some(f) => (f, true),
+                None => (*fmt, false),
+            };
+            let trig = match fmt {
                 "ttl" => false,
                 "trig" => true,
                 _ => return "bad-op".into(),
@@ -164,12 +206,15 @@ pub fn exec_real(line: &str) -> String {
                 iso::bnodes_q(q, &mut bn);
             }
             let head = format!("n={} bn={}", quads.len(), bn.len());
-            let cfg = config(pretty, &ind, &pm);
-            match catch(std::panic::AssertUnwindSafe(|| serialize(trig, cfg, &quads))) {
+            let Some(cfg) = config(pretty, &ind, &pm, alt) else {
+                return format!("{} cfg=rejected", head);
+            };
+            let head = format!("{} cfg=ok", head);
+            match catch(std::panic::AssertUnwindSafe(|| serialize(trig, alt, cfg, &quads))) {
                 Err(p) => format!("{} FAIL.ser_panic={}", head, hex(&p)),
                 Ok(Err(e)) => format!("{} FAIL.ser_error={}", head, hex(&e)),
                 Ok(Ok(txt)) => {
-                    let rt = roundtrip(trig, &quads, &txt);
+                    let rt = roundtrip(trig, pretty, &quads, &txt);
                     if pretty {
                         format!("{} out={}{}", head, hex(&txt), rt)
                     } else {
@@ -195,12 +240,12 @@ pub fn exec_real(line: &str) -> String {
 /// serialise `<x:s> <x:p> OBJ` in pretty Turtle and cut the object's text out
 fn one_object(o: T, pm: &Option<Vec<(String, String)>>) -> String {
     let q = Q { s: T::Iri("urn:c04:s".into()), p: T::Iri("urn:c04:p".into()), o, g: None };
-    let cfg = config(true, " ", pm);
-    match catch(std::panic::AssertUnwindSafe(|| serialize(false, cfg, std::slice::from_ref(&q)))) {
+    let cfg = config(true, " ", pm, false).expect("a space is an indentation");
+    match catch(std::panic::AssertUnwindSafe(|| serialize(false, false, cfg, std::slice::from_ref(&q)))) {
         Err(p) => format!("FAIL.ser_panic={}", hex(&p)),
         Ok(Err(e)) => format!("FAIL.ser_error={}", hex(&e)),
         Ok(Ok(txt)) => {
-            let rt = roundtrip(false, std::slice::from_ref(&q), &txt);
+            let rt = roundtrip(false, true, std::slice::from_ref(&q), &txt);
             let tok = txt.rsplit_once("<urn:c04:p> ").and_then(|(_, r)| r.strip_suffix(".\n")).unwrap_or("?");
             format!("out={}{}", hex(tok), rt)
         }
@@ -216,15 +261,37 @@ struct Worker {
 }
 
 static WORKER: Mutex<Option<Worker>> = Mutex::new(None);
-const REQUEST_CPU_S: u64 = 5;
-const REQUEST_WALL_S: u64 = 300;
-const WORKER_MEM_KB: u64 = 1_500_000;
+/// the memory cap cannot be used in this environment (a capped worker does not even answer `ping`)
+static NO_MEM_CAP: std::sync::atomic::AtomicBool = std::sync::atomic::AtomicBool::new(false);
+/// CPU seconds of the worker per request (the largest generated request needs well under one)
+const REQUEST_CPU_S: u64 = 30;
+const REQUEST_WALL_S: u64 = 900;
+const WORKER_MEM_KB: u64 = 2_000_000;
 
+/// a worker that answered `ping`; falls back to a worker without address-space cap where `ulimit -v` is refused
+/// or the runtime needs more address space than the cap (then only the CPU cap detects unbounded growth)
 fn spawn_worker() -> Worker {
+    use std::sync::atomic::Ordering::Relaxed;
+    if !NO_MEM_CAP.load(Relaxed) {
+        let mut w = spawn_worker_with(true);
+        let ok = writeln!(w.stdin, "ping").and_then(|_| w.stdin.flush()).is_ok()
+            && matches!(w.rx.recv_timeout(Duration::from_secs(120)).as_deref(), Ok("pong"));
+        if ok {
+            return w;
+        }
+        let _ = w.child.kill();
+        let _ = w.child.wait();
+        NO_MEM_CAP.store(true, Relaxed);
+    }
+    spawn_worker_with(false)
+}
+
+fn spawn_worker_with(mem_cap: bool) -> Worker {
     let exe = std::env::current_exe().unwrap();
+    let script = if mem_cap { format!("ulimit -v {} 2>/dev/null; exec \"$0\" worker", WORKER_MEM_KB) } else { "exec \"$0\" worker".to_string() };
     let mut child = std::process::Command::new("sh")
         .arg("-c")
-        .arg(format!("ulimit -v {}; exec \"$0\" worker", WORKER_MEM_KB))
+        .arg(script)
         .arg(exe)
         .stdin(std::process::Stdio::piped())
         .stdout(std::process::Stdio::piped())
